@@ -38,24 +38,21 @@ package config
 //                 before the hooks run; panic freedom is proved without that, the postcondition uses it as hypothesis).
 //   [pkgvar]      typeStringDecoder is the package variable initialised in the var block with
 //                 reflect.TypeOf((*StringDecoder)(nil)).Elem() and assigned nowhere else (no package invariants in the engine).
-//   [desttype]    about the DESTINATION type t, which the programmer chooses through the output struct, not the input:
-//                 a t that implements StringDecoder is a pointer type. The code does reflect.New(t.Elem()) for such a t:
-//                 a struct / interface t panics in Type.Elem ("reflect: Elem of invalid type"), a map / slice t with a
-//                 value-receiver DecodeString fails the unchecked assertion result.(StringDecoder) (demonstrated on the
-//                 real code: field types `type S struct{}` + `func (S) DecodeString`, `StringDecoder` itself, named map / slice).
+//   (No precondition on the DESTINATION type t any more: a non-pointer type that implements StringDecoder with value
+//   receivers used to panic in Type.Elem / in the assertion result.(StringDecoder); repaired: the first branch is taken
+//   for pointer types only, such a type is served through its pointer type by the second branch.)
 // Postcondition [C07.hook.usable]: what mapstructure needs back from a hook (it does not repeat its nil checks on the
 // hook's result and calls reflect.Value.Type on the zero Value otherwise, audit C07 1.1): an error, or a value that is
 // neither nil nor a nil pointer -- for every data that is itself neither nil nor a nil pointer (what mapstructure hands over).
 // DecodeString of the destination type is programmer-supplied code; it is called through the interface and not
 // constrained here.
-//@ assume-text config.decodeString: (StringDecoder).DecodeString implementations of destination types are programmer-supplied and assumed not to panic; a destination type that implements StringDecoder is a pointer type (precondition [desttype], a property of the output struct chosen by the programmer, not of the input)
+//@ assume-text config.decodeString: (StringDecoder).DecodeString implementations of destination types are programmer-supplied and assumed not to panic
 
 //@ func decodeString
 //@   tags C07
 //@   requires f != nil && t != nil && data != nil
 //@   requires rtId(f) == data.dyntype
 //@   requires typeStringDecoder != nil && rtId(typeStringDecoder) == idStringDecoder()
-//@   requires idImpl(rtId(t), idStringDecoder()) ==> idKind(rtId(t)) == 22
 //@   loop 0 invariant inner == v || (rvKind(v) == 20 && !rvIsNil(v) && inner == rvElem(v) && rvKind(inner) != 20)
 //@   loop 0 invariant rvValid(inner) <==> rvKind(inner) != 0
 //@   loop 0 decreases rvKind(inner) == 20 ? 1 : 0
